@@ -114,6 +114,15 @@ def handle (j : Json) : IO Unit := do
   let kind := jstr (jget j "kind")
   let impl := jget j "impl"
   match kind with
+  | "e2e" =>
+    -- the assembled system: whatever the size of the completion, buffered or streamed, the client holds a complete
+    -- Anthropic message whose text is the backend's (C13_text_lossless, C13_total, C13_stream_eq_buffered)
+    if jstr (jget impl "start_err") != "" then
+      emit case false true "start-error" "" (jstr (jget impl "start_err"))
+    else
+      let ok := jnat (jget impl "status") == 200 && jstr (jget impl "err") == "" && jbool (jget impl "text_equal") && jbool (jget impl "complete")
+      emit case ok ok s!"e2e.{if jbool (jget j "stream") then "stream" else "buffered"}" (if ok then "" else "completion-not-delivered-through-the-stack")
+        (if ok then "" else s!"{jstr (jget j "engine")} stream={jbool (jget j "stream")} completion of {jnat (jget impl "want_len")} bytes (max_message_size {jnat (jget j "limit")}): client status {jnat (jget impl "status")} err '{jstr (jget impl "err")}', text {jnat (jget impl "text_len")} bytes, complete={jbool (jget impl "complete")}; body begins {jstr (jget impl "head")}")
   | "stream" =>
     let lines := (jarr (jget j "lines")).map parseLine
     let evs := (jarr (jget impl "events")).map parseEv
